@@ -2,7 +2,7 @@
 import re
 
 from facts import walk, render, role, is_call, AnalysisBroken
-from engines import ff, nth_arg, receiver, enclosing_conditions, is_this_like
+from engines import ff, nth_arg, receiver, enclosing_conditions, is_this_like, use_facts
 
 LEVEL = ('(N) for each of the 24 helper-function flags the four places that must agree are tied together by their stem: the analyser sets mNeed<X>Function in the branch that recognises MathML <x> and populates AST type <X>, '
          'AnalyserModel::need<X>Function() returns that very flag, and the generator emits the profile\'s <x>FunctionString under need<X>Function() (and !has<X>Operator() for the operator-backed ones); '
@@ -63,7 +63,7 @@ def run(F, rep):
         good = True
         det = ''
         for gf, c in emits:
-            rc = ff(gf).rendered_conds_at(c) or set()
+            rc = use_facts(F, gf, c)     # also through a local lambda / helper that does the emitting: add(mModel->needX(), mProfile->xString())
             need = ('mModel->need%sFunction()' % X, True) in rc
             opok = X not in OPERATOR_BACKED or ('mProfile->has%sOperator()' % X, False) in rc
             other = [cc for cc, t in rc if t and re.match(r'mModel->need\w+Function\(\)$', cc) and cc != 'mModel->need%sFunction()' % X]
